@@ -119,6 +119,10 @@ func genSeqPlan(r *rand.Rand, focus string) *ProxyPlan {
 	if r.IntN(5) == 0 {
 		res.ETag = "weak"
 	}
+	if res.LastMod && r.IntN(5) == 0 {
+		// a date in one of the obsolete forms a recipient must accept, or something that is no date
+		res.LastModForm = []string{"rfc850", "asctime", "junk"}[r.IntN(3)]
+	}
 	if r.IntN(4) == 0 {
 		res.DateSkewS = []int{60, 3600, 5, -30}[r.IntN(4)] // the response was generated a while ago (or by a clock that is off)
 	}
